@@ -552,6 +552,10 @@ impl Rule {
 
     //@@ fn src/api/rule.rs :: impl PartialEq for Rule / fn eq -> r
     //@| ensures r == same_key(*self, *other),
+
+    // slice::sort compares with `lt`, i.e. through PartialOrd: the partial order must be the total one
+    //@@ fn src/api/rule.rs :: impl PartialOrd for Rule / fn partial_cmp -> r
+    //@| ensures r == Some(rule_cmp(*self, *other)),
 }
 
 // The lemma library of C11 lives in its own module: Verus gives every module its own solver instance, so these
